@@ -8,7 +8,6 @@ import (
 	"html"
 	"math"
 	"net/url"
-	"reflect"
 	"regexp"
 	"strings"
 	"time"
@@ -337,32 +336,18 @@ func splitFilter(s, sep string) any {
 }
 
 func uniqFilter(a []any) (result []any) {
-	seenMap := map[any]bool{}
-	seenNil := false
-	seen := func(item any) bool {
-		if item == nil {
-			// reflect.TypeOf(nil) has no Kind
-			wasSeen := seenNil
-			seenNil = true
-			return wasSeen
-		}
-		if k := reflect.TypeOf(item).Kind(); k < reflect.Array || k == reflect.Ptr || k == reflect.UnsafePointer {
-			if seenMap[item] {
-				return true
-			}
-			seenMap[item] = true
-			return false
-		}
-		// the O(n^2) case:
+	// Elements are compared with Liquid equality, so 1, int16(1) and a Drop yielding 1 are one
+	// value, and nil, slices and maps are handled too (a Go map keyed by the element would tell
+	// numeric widths apart and panic on unhashable elements).
+	for _, item := range a {
+		seen := false
 		for _, other := range result {
 			if eqItems(item, other) {
-				return true
+				seen = true
+				break
 			}
 		}
-		return false
-	}
-	for _, item := range a {
-		if !seen(item) {
+		if !seen {
 			result = append(result, item)
 		}
 	}
